@@ -107,3 +107,112 @@ def generic_replay(rec, rep, monitors=('value',)):
     if case.get('trace'):
         return replay_trace(rec, case)
     return diff.replay_diff(rec, case, monitors=monitors)
+
+
+def grammar_alphabet(grammars, extra=''):
+    """Characters that can matter for a grammar: those of its string literals plus
+    every printable character one of its regexes can start a match with."""
+    import re
+    import string
+    if isinstance(grammars, dict):
+        grammars = [grammars]
+    chars = []
+
+    def add(c):
+        if c not in chars:
+            chars.append(c)
+
+    for G in grammars:
+        for top in gast.grammar_exprs(G):
+            for e in gast.walk(top):
+                k = e[0]
+                if k in ('str', 'istr'):
+                    for c in e[1]:
+                        add(c)
+                        if k == 'istr':
+                            add(c.swapcase())
+                elif k in ('bstr', 'bistr'):
+                    for c in e[1].decode('latin-1'):
+                        add(c)
+                elif k == 'byte':
+                    add(chr(e[1]))
+                elif k in ('re', 'bre'):
+                    try:
+                        rx = re.compile(e[1], re.I if e[2] else 0)
+                    except re.error:
+                        continue
+                    for c in string.printable[:95]:
+                        m = rx.match(c)
+                        if m and m.end() > 0:
+                            add(c)
+    for c in extra:
+        add(c)
+    return ''.join(chars)
+
+
+def guided_inputs(rng, chain, alphabet, rounds=300, entry=None, keep=150, maxlen=14, seeds=('',),
+                  exhaustive_len=None):
+    """Model-guided input search: all short strings over the alphabet, then
+    mutation of strings on which the reference model got further (accepted, or
+    longer consumed prefix).  Returns distinct inputs mixing accepted, partially
+    accepted and rejected strings.  (Only the *model* guides the search; verdicts
+    never depend on it.)"""
+    from . import refpeg
+
+    def score(t):
+        try:
+            out, m = refpeg.expected(chain, t, entry, 0, True, budget=20000)
+        except (refpeg.IllFormed, refpeg.ModelBudget, RecursionError):
+            return None
+        except Exception:
+            return None
+        if out[0] == 'value':
+            return (2, len(t))
+        if out[0] == 'partial':
+            return (1, out[2])
+        return (0, m.M)
+
+    if exhaustive_len is None:
+        exhaustive_len = 3 if len(alphabet) <= 5 else (2 if len(alphabet) <= 12 else 1)
+    pool = {}
+    short = []
+    for s in list(seeds) + list(gen.all_strings(alphabet, exhaustive_len)):
+        if s in pool:
+            continue
+        sc = score(s)
+        if sc is not None:
+            pool[s] = sc
+            short.append(s)
+    rejected = []
+    keys = [s for s in pool if pool[s][0] == 2 or pool[s][1] >= len(s)] or list(pool)
+    for _ in range(rounds):
+        if not keys:
+            break
+        t = rng.choice(keys)
+        k = rng.randrange(4)
+        i = rng.randint(0, len(t))
+        c = rng.choice(alphabet)
+        if k == 0 or not t:
+            u = t[:i] + c + t[i:]
+        elif k == 1:
+            u = t[:i] + c + t[i + 1:]
+        elif k == 2:
+            u = t[:i] + t[i + 1:]
+        else:
+            u = t + c
+        if u in pool or len(u) > maxlen:
+            continue
+        sc = score(u)
+        if sc is None:
+            continue
+        pool[u] = sc
+        # keep mutating only strings the model consumes completely or almost
+        if sc[0] == 2 or sc[1] >= len(u) - 1:
+            keys.append(u)
+        elif len(rejected) < keep // 3:
+            rejected.append(u)
+    good = [s for s in pool if s not in short]
+    good.sort(key=lambda s: (-pool[s][0], -pool[s][1], s))
+    if len(short) > keep:
+        short = rng.sample(short, keep)
+    return short + good[:keep]
